@@ -124,7 +124,7 @@ func runC12(c *Ctx) {
 	c.ruleO1("N2-comparator")
 	c.Min("N1-selection", 33)
 	c.Min("N3-nothing-selected", 16)
-	c.Min("N5-from-selected-set", 20)
+	c.Min("N5-from-selected-set", 14)
 	c.Min("N2-order", 11)
 	_ = token.NoPos
 }
